@@ -27,8 +27,14 @@ func ZZC06Merge() {
 	paths := map[string]string{"e1": "zzmod/e1", "e2": "zzmod/x/dup", "e3": "zzmod/e3", "e4": "zzmod/z/u", "e5": "zzmod/y/dup"}
 	names := map[string]string{"e1": "e1", "e2": "dup", "e3": "e3", "e4": "u", "e5": "dup"}
 	files := []nd.File{}
+	// e3 itself imports zzmod/deep: an INDIRECT dependency of u whose fact must not reach u's indices
+	files = append(files, nd.File{Pkg: "zzmod/deep", Name: "deep.go", Src: "package deep\n"})
 	for _, p := range []string{"e1", "e2", "e3", "e4", "e5"} {
-		files = append(files, nd.File{Pkg: paths[p], Name: "e.go", Src: "package " + names[p] + "\n"})
+		src := "package " + names[p] + "\n"
+		if p == "e3" {
+			src += "\nimport _ \"zzmod/deep\"\n"
+		}
+		files = append(files, nd.File{Pkg: paths[p], Name: "e.go", Src: src})
 	}
 	files = append(files, nd.File{Pkg: "zzmod/u", Name: "u.go", Src: c06SrcU})
 	prog := nd.LoadProgram(files, nil)
@@ -37,8 +43,10 @@ func ZZC06Merge() {
 	for _, p := range []string{"e1", "e2", "e3", "e4", "e5"} {
 		has[paths[p]] = nd.Bool("fact_" + p)
 	}
-	t2, c2, f2 := nd.Atom("e2_type"), nd.Atom("e2_ctor"), nd.Atom("e2_field")
-	t5, fn5 := nd.Atom("e5_type"), nd.Atom("e5_func")
+	// type names from a small alphabet with exported and unexported spellings (importers reach values of unexported
+	// types through exported functions and variables), the other names opaque
+	t2, c2, f2 := nd.Enum("e2_type", "T2", "hidden", "Q"), nd.Atom("e2_ctor"), nd.Atom("e2_field")
+	t5, fn5 := nd.Enum("e5_type", "T2", "hidden5"), nd.Enum("e5_func", "Q", "mk")
 	fact2 := annotations.PackageAnnotations{
 		ImmutableAnnotations:   []annotations.ImmutableAnnotation{{OnType: t2}},
 		ConstructorAnnotations: []annotations.ConstructorAnnotation{{OnType: t2, ConstructorNames: []string{c2}}},
@@ -48,10 +56,13 @@ func ZZC06Merge() {
 		TestonlyAnnotations:    []annotations.TestOnlyAnnotation{{Kind: annotations.TestOnlyOnType, ObjectName: t5}, {Kind: annotations.TestOnlyOnFunc, ObjectName: fn5}},
 		PackageOnlyAnnotations: []annotations.PackageOnlyAnnotation{{Kind: annotations.TestOnlyOnFunc, ObjectName: fn5, AllowedPackages: []string{"zzmod/y/dup", "w"}}},
 	}
-	t4 := nd.Atom("e4_type")
+	t4 := nd.Enum("e4_type", "t4", "Exported4")
+	deepT := "DeepType"
+	factDeep := annotations.PackageAnnotations{ImmutableAnnotations: []annotations.ImmutableAnnotation{{OnType: deepT}}, TestonlyAnnotations: []annotations.TestOnlyAnnotation{{Kind: annotations.TestOnlyOnType, ObjectName: deepT}}}
 	fact4 := annotations.PackageAnnotations{ImmutableAnnotations: []annotations.ImmutableAnnotation{{OnType: t4}}}
 	facts := Facts{"zzmod/e1": {}, "zzmod/x/dup": &fact2, "zzmod/e3": {}, "zzmod/z/u": &fact4, "zzmod/y/dup": &fact5}
-	visible := Facts{}
+	// the driver may well hold the indirect dependency's fact (the standalone driver inherits facts transitively)
+	visible := Facts{"zzmod/deep": &factDeep}
 	for k, v := range facts {
 		if has[k] {
 			visible[k] = v
@@ -59,7 +70,7 @@ func ZZC06Merge() {
 	}
 	var raw []analysis.Diagnostic
 	pass := NewPass(prog, "zzmod/u", visible, &raw)
-	lt := nd.Atom("local_type")
+	lt := nd.Enum("local_type", "Loc", "loc")
 	local := annotations.PackageAnnotations{ImmutableAnnotations: []annotations.ImmutableAnnotation{{OnType: lt}}}
 
 	imm := indexing.BuildImmutableTypesIndex[*annotations.ImmutableCheckerFact](pass, &local)
@@ -70,8 +81,9 @@ func ZZC06Merge() {
 	po := indexing.BuildPackageOnlyIndex[*annotations.PackageOnlyCheckerFact](pass, &local)
 
 	// arbitrary query
-	qp := nd.Enum("q_pkg", "zzmod/u", "zzmod/e1", "zzmod/x/dup", "zzmod/y/dup", "zzmod/z/u", "zzmod/other")
-	qn := nd.Atom("q_name")
+	qp := nd.Enum("q_pkg", "zzmod/u", "zzmod/e1", "zzmod/x/dup", "zzmod/y/dup", "zzmod/z/u", "zzmod/other", "zzmod/deep")
+	qn := nd.Enum("q_name", "T2", "hidden", "Q", "t4", "Exported4", "DeepType", "other")
+	nd.Assume(nd.Or(lt == "Loc", lt == "loc"))
 	qm := nd.Atom("q_member")
 	e2 := has["zzmod/x/dup"]
 	e5 := has["zzmod/y/dup"]
@@ -80,6 +92,7 @@ func ZZC06Merge() {
 	nd.Assert(ctor.Match(qp, qm, qn) == nd.And(e2, qp == "zzmod/x/dup", qn == t2, qm == c2), "constructor index")
 	nd.Assert(mut.Match(qp, qm, qn) == nd.And(e2, qp == "zzmod/x/dup", qn == t2, qm == f2), "mutable-field index")
 	nd.Assert(tt.Contains(qp, qn) == nd.And(e5, qp == "zzmod/y/dup", qn == t5), "testonly type index")
+	nd.Assert(!imm.Contains("zzmod/deep", deepT) && !tt.Contains("zzmod/deep", deepT), "facts of INDIRECT dependencies do not enter the indices")
 	nd.Assert(tf.Match(qp, qn, qn) == nd.And(e5, qp == "zzmod/y/dup", qn == fn5), "testonly func index")
 	nd.Assert(po.HasAnyFunctionAttachments(qp, qn) == nd.And(e5, qp == "zzmod/y/dup", qn == fn5), "packageonly index: item")
 	nd.Assert(po.HasPkgFunctionAttachment(qp, qn, "w") == nd.And(e5, qp == "zzmod/y/dup", qn == fn5), "packageonly index: allow-list entry")
